@@ -502,6 +502,78 @@ def law_schedule(ch):
         reset_cache()
 
 
+def law_stress(ch):
+    """free-running threads (no scheduler, switch interval 1 us) repeating
+    out-of-place operations on shared operands; verdict = equality with the
+    sequential results, so it cannot be flaky on race-free code"""
+    import threading
+
+    ferm = ch.boolean("ferm")
+    spec = ch.draw(gen.array_specs(ferm=ferm, min_ndim=3, max_ndim=4,
+                                   max_size=3, allow_empty=False, dyn=True,
+                                   dtype="float64"), "x")
+    x = gen.build(spec)
+    if not x.blocks:
+        return
+    nd = x.ndim
+    nth = ch.integer(2, 6, "nthreads")
+    progs = [thread_ops(ch, x, None, nd, f"t{i}") for i in range(nth)]
+    if ch.boolean("same-op", p=0.6):
+        progs = [progs[0] for _ in range(nth)]
+    reps = ch.integer(2, 6, "reps")
+    snap = snapshot(x)
+    with no_caches():
+        seq = [[attempt(apply_history_op, x, a) for a in p] for p in progs]
+    maxsize = ch.choice([1, 2, 8192], "maxsize")
+    reset_cache()
+    set_cache(maxsize=maxsize)
+    old = sys.getswitchinterval()
+    sys.setswitchinterval(1e-6)
+    results = [[None] * reps for _ in range(nth)]
+    errors = []
+    barrier = threading.Barrier(nth)
+
+    def work(i):
+        try:
+            barrier.wait(timeout=60)
+            for r in range(reps):
+                results[i][r] = [attempt(apply_history_op, x, a)
+                                 for a in progs[i]]
+        except BaseException as e:  # noqa
+            errors.append((i, e))
+
+    try:
+        ths = [threading.Thread(target=work, args=(i,), daemon=True)
+               for i in range(nth)]
+        for t in ths:
+            t.start()
+        for t in ths:
+            t.join(timeout=120)
+        if any(t.is_alive() for t in ths):
+            raise HarnessError("stress: thread did not finish")
+    finally:
+        sys.setswitchinterval(old)
+        reset_cache()
+    for i, e in errors:
+        raise Discrepancy(f"stress:thread-raised:{type(e).__name__}",
+                          f"thread {i}: {e!r}")
+    for i in range(nth):
+        for r in range(reps):
+            for k, ((ok, got), (ok0, want)) in enumerate(
+                    zip(results[i][r], seq[i])):
+                what = f"thread {i} repetition {r} op {progs[i][k]}"
+                if ok != ok0:
+                    raise Discrepancy("stress:raises-differently",
+                                      f"{what}: {got if not ok else want}")
+                if ok:
+                    results_equal(got, want, "stress:result-differs", what)
+    require(snapshot(x) == snap, "stress:operand-modified",
+            lambda: snapshot_diff(snap, snapshot(x)))
+    ch.label(f"threads={nth}")
+    ch.mark_nontrivial(nth >= 3)
+
+
+
 # ------------------------------------------------------------ environment ---
 
 ENV_SCRIPT = r"""
@@ -574,6 +646,9 @@ LAWS = [
     Law("schedule", law_schedule, quick=480, thorough=12000,
         doc="deterministically scheduled threads on shared operands == "
             "sequential results"),
+    Law("stress", law_stress, quick=16, thorough=800,
+        doc="free-running threads (switch interval 1 us) repeating "
+            "operations on shared operands == sequential results"),
     Law("environment", law_environment, kind="enum", cases=env_cases,
         max_shards=8,
         doc="cache environment variables (incl. invalid values) do not "
